@@ -4,7 +4,7 @@ CONSTANTS
   Runtimes = {"threaded", "tokio"}
   MaxReq = 2
   Kinds = {"close", "keep", "ws"}
-  SigTwice = TRUE
+  SigTwice = FALSE
   Dev = {}
 SPECIFICATION SpecAllFair
 INVARIANTS TypeOK
